@@ -232,6 +232,12 @@ def _run_stream_init_sync(
             if app._server._protocol_version_parts is not None and method_name != "__describe__":
                 md = _current_request_metadata.get()
                 app._server._check_protocol_version(md.get(PROTOCOL_VERSION_KEY) if md is not None else None)
+            # See the note in _app_unary.py: caller-controlled shape is refused
+            # while the request is still being validated (and before any value
+            # is converted), so anything the init method raises past this point
+            # takes the ordinary error path.
+            _validate_call_signature(info.name, kwargs, info.param_types, info.param_defaults, info.params_schema)
+            _validate_params(info.name, kwargs, info.param_types)
             try:
                 _deserialize_params(kwargs, info.param_types, app._server.ipc_validation)
             except (KeyError, ValueError) as exc:
@@ -239,11 +245,6 @@ def _run_stream_init_sync(
                 # without treating external-location resolver failures raised
                 # before deserialization as malformed Arrow.
                 raise TypeError(str(exc)) from exc
-            # See the note in _app_unary.py: caller-controlled shape is refused
-            # while the request is still being validated, so anything the init
-            # method raises past this point takes the ordinary error path.
-            _validate_call_signature(info.name, kwargs, info.param_types, info.param_defaults, info.params_schema)
-            _validate_params(info.name, kwargs, info.param_types)
         except (pa.ArrowInvalid, OSError, TypeError, StopIteration, RpcError, VersionError) as exc:
             # OSError: a damaged IPC flatbuffer (pyarrow's ArrowIOError); see _app_unary.py.
             raise _RpcHttpError(exc, status_code=HTTPStatus.BAD_REQUEST) from exc
